@@ -67,7 +67,7 @@ def generate(rng, prop, tier):
         ops = ops[:10]
         ops.insert(rng.randint(0, len(ops)), {'op': 'cbulk', 'n': rng.choice([520, 600, 1100])})
         ops.append({'op': rng.choice(['dump', 'sync'])})
-    return {'engine': 'syncsim', 'prop': prop, 'backend': B.config(label, B.odd_name(rng, label, 's0')), 'ops': ops,
+    return {'engine': 'syncsim', 'prop': prop, 'backend': B.with_link(rng, label, B.config(label, B.odd_name(rng, label, 's0'))), 'ops': ops,
             # 'fresh': the archives are read back through NEW handles on the same location (what is in the store,
             # not what one connection believes); 'same': through the handle the cache holds
             'reader': rng.choice(['fresh', 'same']),
